@@ -123,7 +123,7 @@ def run(ctx, rep):
                           where=g.where(an))
         # chunk id + segment arguments
         cid, seg = a[2], a[3]
-        chunk_elem = [("okval", strip_ids(("call", cpath(g.term(n)), tuple(event_args(g, n))))) for n in M.chunk_next]
+        chunk_elem = M.chunk_elems()
         cid_ok = cid in chunk_elem
         seg_ok = False
         if call_is(seg, r"Segment::<C>::new$"):
